@@ -3,7 +3,14 @@ import json, os
 
 E1 = "symx"
 E2 = "sqlsem"
+E3 = "pybmc"
 CHECKS = {
+    "C19": dict(
+        engine=E3, category="model_checking",
+        technique="bounded model checking: util/topological.py interpreted from its AST over symbolic graphs with merged control flow, one z3 (QF_BV/SAT) validity query per obligation, unwinding assertions, counterexamples replayed on the real functions",
+        text="For every node-universe size N within the bound, every obligation (each item output exactly once; every dependency ordered; CircularDependencyError iff a cycle among the items; find_cycles = exactly the nodes on a cycle; independence from set iteration order; strict subset order of sort_as_subsets; loop-unwinding and list-capacity assertions) is a z3 validity query over all 2^(N^2) edge relations x 2^N item subsets. The encoding is regenerated from the file's current AST and fails closed on unknown constructs.",
+        note="Trusted: vlib/pybmc.py interpreter (cross-validated against the real functions on concrete graphs at every run), z3, reference reachability (Floyd-Warshall over Bools). Items are 0..N-1 (distinct hashables up to renaming); set iteration is ascending or descending.",
+        ref="DESIGN.md §4 C19"),
     "C01": dict(
         engine=E2, category="translation_validation",
         technique="translation validation: real compiler output re-parsed with the backend grammar, equivalence with the expression tree decided by z3 (3VL + NULL flags), sat models replayed on sqlite3",
